@@ -389,6 +389,7 @@ pub fn run_leg(args: &Args, rep: &mut Report, prop: &str) {
                 let (pf, _) = oracle::check_packet_numbers(out, false, true);
                 f.extend(pf);
             }
+            "C10" => f.extend(lost_frames_retransmitted(case, out)),
             _ => {}
         }
         f.extend(oracle::check_panics(out));
@@ -412,7 +413,16 @@ pub fn run_leg(args: &Args, rep: &mut Report, prop: &str) {
     for i in 0..n {
         let sseed = rng.next_u64();
         let mut r = rng.fork(i);
-        let case = gen_bounded(&mut r, sseed);
+        let mut case = gen_bounded(&mut r, sseed);
+        if prop == "C07" && i % 3 == 1 {
+            // packets that carry nothing but a DATAGRAM frame (frames the sent journal does not track) must consume
+            // their packet number too: one short echo, then datagrams from both sides on an otherwise idle connection
+            case.spec.params.datagram = 1200;
+            case.spec.jobs = vec![scenario::Job { kind: scenario::JobKind::BidiEcho, size: r.range(1, 3000) as usize, chunk: 1200 }];
+            case.spec.datagrams = (0..r.range(10, 40)).map(|k| (k % 2 == 0, r.range(8, 600) as usize)).collect();
+            case.label = format!("{} + datagrams", case.label);
+            rep.count("l2_scenarios_with_datagram_only_packets");
+        }
         let out = scenario::run(&case.spec);
         rep.evaluations += 1;
         let ver = evaluate(&case, &out);
@@ -433,6 +443,74 @@ pub fn run_leg(args: &Args, rep: &mut Report, prop: &str) {
             rep.violation(format!("{prop}.l2.{sig}"), what, case.to_json());
         }
     }
+}
+
+/// C10, whole-connection clause "frames of packets declared lost are reported for retransmission": judged only
+/// when a bounded-fault scenario stalled (handshake or transfers incomplete at the deadline, no endpoint gave
+/// the path up).  Then every CRYPTO / STREAM range that an endpoint's own log declares lost must appear again in
+/// a later packet of the same space from that endpoint, provided the endpoint sent at least ten more packets
+/// after the declaration (qlog time is wall time, so "later" is counted in packets, not in milliseconds).
+pub fn lost_frames_retransmitted(case: &Case, out: &Outcome) -> Vec<oracle::Finding> {
+    let mut f = vec![];
+    let ver = evaluate(case, out);
+    let stalled = case.bounded_until_ms.is_some() && !ver.path_declared_lost && (!ver.handshake_ok || !ver.all_complete || !out.finished);
+    if !stalled {
+        return f;
+    }
+    // (vantage is server, space, frame type, stream id, offset, end, time)
+    type Rng_ = (bool, String, String, u64, u64, u64, f64);
+    let mut lost: Vec<Rng_> = vec![];
+    let mut sent: Vec<Rng_> = vec![];
+    // "time" = number of packets the vantage had sent so far
+    let mut n_sent = [0f64; 2];
+    for (vp, e) in &out.events {
+        let Ok(j) = serde_json::to_value(e) else { continue };
+        let name = j["name"].as_str().unwrap_or("");
+        if name != "quic:packet_lost" && name != "quic:packet_sent" {
+            continue;
+        }
+        let is_server = matches!(vp, qevent::VantagePointType::Server);
+        if name == "quic:packet_sent" {
+            n_sent[is_server as usize] += 1.0;
+        }
+        let t = n_sent[is_server as usize];
+        let space = j["data"]["header"]["packet_type"].as_str().unwrap_or("").to_string();
+        for fr in j["data"]["frames"].as_array().into_iter().flatten() {
+            let ty = fr["frame_type"].as_str().unwrap_or("");
+            if ty != "crypto" && ty != "stream" {
+                continue;
+            }
+            let off = fr["offset"].as_u64().unwrap_or(0);
+            let len = fr["length"].as_u64().unwrap_or(0);
+            let rec = (is_server, space.clone(), ty.to_string(), fr["stream_id"].as_u64().unwrap_or(0), off, off + len, t);
+            if name == "quic:packet_lost" { lost.push(rec) } else { sent.push(rec) }
+        }
+    }
+    for l in &lost {
+        let later_packets = n_sent[l.0 as usize] - l.6;
+        if l.5 == l.4 || later_packets < 10.0 {
+            continue;
+        }
+        let again = sent.iter().any(|s| s.0 == l.0 && s.1 == l.1 && s.2 == l.2 && s.3 == l.3 && s.6 >= l.6 && s.4 < l.5 && l.4 < s.5);
+        if !again {
+            f.push((
+                format!("lost-frames-not-retransmitted:{}:{}", l.1, l.2),
+                format!(
+                    "the connection stalled under bounded faults [{}]; the {} declared a {} packet lost that carried {} bytes {}..{}{} and never sent those bytes again in the {:.0} packets it sent afterwards",
+                    case.label,
+                    if l.0 { "server" } else { "client" },
+                    l.1,
+                    l.2,
+                    l.4,
+                    l.5,
+                    if l.2 == "stream" { format!(" of stream {}", l.3) } else { String::new() },
+                    later_packets
+                ),
+            ));
+            break;
+        }
+    }
+    f
 }
 
 /// debugging aid: qlog lines that mention stream `sid`
